@@ -356,7 +356,7 @@ where
     }
 
     fn push(&mut self, pos: usize, token: T) {
-        if token.text() == "-" || is_whitespace(token.text()) {
+        if (token.text() == "-" || is_whitespace(token.text())) && !token.not_a_number_part() {
             return;
         }
         if token.not_a_number_part() {
